@@ -1,10 +1,12 @@
 #!/bin/bash
-# ./seeded_all.sh <tier> <seed> [name-prefix]: evaluates every seeded change with the check of its property; one line per change
+# ./seeded_all.sh <tier> <seed> [name-prefix] [parallel]: evaluates every seeded change with the check of its property; one line per change
 cd "$(dirname "$0")"
-TIER="${1:-quick}"; SEED="${2:-20260929}"; PRE="${3:-}"
-for d in seeded/${PRE}*/; do
-  n=$(basename $d)
-  out=$(VERIF_SEED=$SEED ./seeded_eval.sh $n $TIER 2>&1)
+TIER="${1:-quick}"; SEED="${2:-20260929}"; PRE="${3:-}"; PAR="${4:-3}"
+one() {
+  n="$1"
+  out=$(VERIF_SEED=$SEED VERIF_WORKERS=6 ./seeded_eval.sh $n $TIER 2>&1)
   if echo "$out" | grep -q "^VIOLATION"; then v=CAUGHT; else v=MISSED; fi
-  echo "$v seed=$SEED $n $(echo "$out" | grep -c '^VIOLATION') violation line(s)"
-done
+  echo "$v seed=$SEED $n $(echo "$out" | grep -c '^VIOLATION') violation line(s) $(echo "$out" | grep -E '^(INCONCLUSIVE|patch does not|cannot)' | head -1 | cut -c1-120)"
+}
+export -f one; export TIER SEED
+ls -d seeded/${PRE}*/ | xargs -n1 basename | xargs -P "$PAR" -I{} bash -c 'one {}'
